@@ -262,6 +262,11 @@ class StratEval:
                     raise Bail(f"{self.fn.name}: unsupported filter `{txt(e.args[0])}`")
                 return ("filtered", recv, p[1])
             return ("mapped", recv, args[0] if args else None)
+        if last == "pandas_dtype_strategy":
+            slots = ["pandera_dtype", "strategy"]
+            for i, nm in enumerate(slots):
+                if nm in kwargs and len(args) == i:
+                    args.append(kwargs.pop(nm))
         if last in ("pandas_dtype_strategy", "from_regex", "text", "sampled_from", "just", "from_dtype", "integers", "floats"):
             return ("base", last, tuple(args), tuple(sorted(kwargs.items())))
         if last == "to_numpy_dtype":
